@@ -478,7 +478,21 @@ class Worker:
             self._active_task = task
 
             # Perform a step of the task and get the future it awaits on
-            future = task.step(self._get_desired_result(task))
+            try:
+                desired_result = self._get_desired_result(task)
+            except KeyError:
+                # The mailbox is gone: a cancel of this task (or of one of
+                # its ancestors) was handled after the task was selected.
+                if (
+                    task.return_address in self._cancelled_task_ids
+                    or any(
+                        bcb in self._cancelled_task_ids
+                        for bcb in task.breadcrumbs
+                    )
+                ):
+                    return
+                raise
+            future = task.step(desired_result)
 
             if task.return_address not in self._tasks:
                 # The task was cancelled while this step was running; drop
